@@ -6,6 +6,15 @@ Three parties per case:
   * the property oracle: plain python sets / textbook algorithms (union-find, Kahn, Dijkstra, Prim, simple
     path enumeration) written here, independent of the Lean model;
   * the Lean model (`Core/C14Graph.lean`) through the line driver.
+Inputs reached (see the evidence distribution): adjacency matrices as dense ndarray / csr_matrix in the dtypes
+int64, int32, bool, float64, float32, uint8 (csc / coo / lil / csr_array are refused by the constructor with
+ValueError by design: counted), csr matrices with explicitly stored zeros, edge lists with repeated edges, both
+orientations, self-loops and isolated first / last vertices (abstract and Point variants), weights of any sign
+(negative weights: oracle only, `Batch.add` skips the model whose weights are natural numbers; shortest paths with
+negative weights only on directed acyclic graphs with the Bellman-Ford / Johnson options, against a python
+Bellman-Ford), objects with a previous life (results of from_mask / minimum_spanning_tree are queried with the whole
+battery and masked again; `check_history`: the same queries in different orders, repeated, after copy(), the
+receiver unchanged after every call).
 scipy's csgraph results that menpo post-processes (distance / predecessor rows, BFS / DFS predecessors, the
 listing of the breadth-first tree) are fetched by the harness with the same calls and handed to the model as
 contract parameters; the contract itself is checked against the model's Bellman-Ford on every case.
@@ -20,39 +29,60 @@ from . import common
 
 PROP = "C14"
 INFO = dict(
-    technique="Lean 4 proof (general theorems by induction + kernel-decided tables over the property's two "
-              "exhaustive small domains) + exhaustive/random model-implementation correspondence on the real classes",
-    level_text="Theorems over an executable model of menpo/shape/graph.py: edge list -> adjacency reports exactly the "
-               "edge set (each undirected edge once, symmetric); neighbours/children/parents/isolated/adjacency "
-               "list/edge test consistent; masking = induced subgraph renumbered in order with points following; "
-               "tree parent/children/depth/leaf relations; find_all_paths = exactly the simple routes; Bellman-Ford "
-               "reference distances sound and optimal; the reconstructed shortest route weighs d(start,end) under "
-               "scipy's predecessor contract; the recursive DFS cycle detector, is_tree and the Tree constructor "
-               "agree with reference algorithms on ALL 1+2+8+64+1024 undirected graphs on <=5 vertices and ALL "
-               "1+4+64+4096 loop-free digraphs on <=4 vertices (decide +kernel, 24 chunk files).  The model is tied "
-               "to /repo by running every graph of both small domains (every mask, root, start/end pair) and "
-               "random graphs/trees/weighted graphs up to 40 vertices on the real classes and diffing every "
-               "observable against the Lean driver; an independent python oracle decides the property.",
+    technique="Lean 4 proof (general theorems by induction for graphs of every size; kernel-decided tables over the "
+              "property's two exhaustive small domains kept as an independent cross-check) + exhaustive/random "
+              "model-implementation correspondence on the real classes",
+    level_text="Theorems over an executable model of menpo/shape/graph.py, for graphs of EVERY size: edge list -> "
+               "adjacency reports exactly the edge set (each undirected edge once, symmetric); neighbours/children/"
+               "parents/isolated/adjacency list/edge test consistent; masking = induced subgraph renumbered in order "
+               "with points following, and a sequence of masks is one mask (mask_mask); PointTree.from_mask keeps "
+               "exactly the masked-in vertices joined to the root through masked-in vertices, renumbered in order, "
+               "root re-indexed (treeFromMask_root_component); the recursive DFS cycle detector _has_cycles, "
+               "transcribed with its shared entered/exited/tree_edges/back_edges state, answers True iff there is a "
+               "closed walk (directed) / a self-loop or simple cycle (undirected), by a DFS invariant over a fuel-free "
+               "big-step semantics that the fuelled transcription provably realises, and equals the closed-walk / "
+               "cyclomatic-number references on every graph; is_tree = non-empty, connected, acyclic (undirected; the "
+               "n-1 edge count is implied) and = 'the underlying graph is a tree' (directed); the Tree constructor "
+               "accepts exactly the arborescences on >= 2 vertices (BFS-tree comparison as coded), and in every "
+               "accepted tree parent/children/depth/leaves/levels are total and mutually consistent; find_all_paths = "
+               "exactly the simple routes; Bellman-Ford reference distances sound and optimal; the reconstructed "
+               "shortest route weighs d(start,end) under scipy's predecessor contract; the Kruskal reference returns "
+               "a minimum spanning forest (forest, spanning, n - #components edges, minimal against every spanning "
+               "edge set).  The kernel-decided tables over ALL 1+2+8+64+1024 undirected graphs on <=5 vertices and ALL "
+               "1+4+64+4096 loop-free digraphs on <=4 vertices (24 chunk files) are kept.  The model is tied to /repo "
+               "by running every graph of both small domains (every mask, root, start/end pair) and random "
+               "graphs/trees/weighted graphs up to 40 vertices (dense / csr, six dtypes, edge lists, explicit zeros, "
+               "negative weights, objects with a previous life) on the real classes and diffing every observable "
+               "against the Lean driver; an independent python oracle decides the property.",
     level_note="Trusted: Lean kernel; axioms propext/Classical.choice/Quot.sound; the Python harness and the driver's "
                "parser; scipy.sparse.csgraph (shortest_path, breadth/depth_first_order, breadth_first_tree, "
                "connected_components, minimum_spanning_tree) as contract parameters whose outputs are validated "
-               "against the model's reference algorithms on every case; scipy.sparse indexing.",
+               "against the model's reference algorithms (proved correct: Bellman-Ford, Kruskal, reachability "
+               "closure, BFS tree) on every case; scipy.sparse indexing.",
     rule="a case is one (graph, operation, arguments) evaluation on the real classes; distinct = distinct "
          "(kind, n, stored entries, operation, arguments); non-trivial = the graph has at least one edge",
-    partial=["unbounded correctness of the DFS cycle detector is not proved (proved for every graph of the two "
-             "small domains, which is the property's quantifier; larger graphs: correspondence + oracle)",
-             "minimum spanning trees: the model's Kruskal reference has no optimality theorem (decided by the python "
-             "Prim oracle and the model's Kruskal both agreeing with scipy on every case)",
-             "PointTree.from_mask component pruning: model + correspondence + oracle, no theorem",
-             "find_shortest_path cost, find_shortest_path(v,v) and find_path(v,v) are recorded known findings (pinned "
+    partial=["find_shortest_path cost, find_shortest_path(v,v) and find_path(v,v) are recorded known findings (pinned "
              "by test_find_shortest_path / test_find_path): refuted by witness in Lean, the model carries the coded "
              "formula, the repaired statement is shortest_route_weight_is_distance",
              "quick tier samples masks / start-end pairs per small graph (every graph, every root of every candidate "
-             "tree and every mask of every arborescence are always run); the thorough tier runs every combination"],
-    assumptions=["edge weights are positive integers (exact in float64) except for trees, whose edges also get "
-                 "negative and mixed-sign integer weights (oracle only: the Lean model carries natural-number weights)",
+             "tree and every mask of every arborescence are always run); the thorough tier runs every combination",
+             "csr matrices with explicitly stored zeros: the edge queries read them as non-edges, scipy.csgraph as "
+             "weight-0 edges (find_path, find_shortest_path, minimum_spanning_tree, is_tree disagree with edges / "
+             "is_edge); proposed repair notes/fixes/C14-explicit-zeros.diff (eliminate_zeros in Graph.__init__); until "
+             "it is applied the csgraph-backed queries are left out for such matrices (they are checked automatically "
+             "as soon as the constructor drops stored zeros)",
+             "the Lean model carries natural-number weights: graphs with negative weights are compared with the model "
+             "on |w| for the structural operations (basic, mask, tmask, paths, tree, levels, fp) and judged by the "
+             "python oracle alone for shortest paths and spanning trees",
+             "uniqueness of the minimum spanning tree for pairwise different weights (used by the mste comparison) is "
+             "the textbook fact, not a Lean theorem; kruskal_minimum_spanning_forest proves minimality of the weight"],
+    assumptions=["edge weights are integers of any sign (exact in float64) for the plain queries, masks, paths, "
+                 "spanning trees and trees; shortest paths with negative weights only on directed acyclic graphs with "
+                 "Bellman-Ford / Johnson",
                  "a single-vertex Tree is outside menpo's Tree domain by design ('a tree cannot have isolated "
-                 "vertices'); minimum spanning trees are only defined for connected graphs"],
+                 "vertices'); minimum spanning trees are only defined for connected graphs",
+                 "Python's recursion limit is not modelled (the recursive detector is run on graphs of up to 40 "
+                 "vertices; the Lean theorems hold for every size of the model)"],
     design_ref="DESIGN.md section 6, C14")
 IMPORTS = ["MenpoModel.Props.C14"]
 _T = "MenpoModel.C14."
@@ -60,7 +90,7 @@ THEOREMS = [_T + t for t in [
     "directed_edges_exact", "undirected_edges_once_symmetric",
     "neighbours_iff_isEdge", "children_iff_parents", "neighbours_symmetric", "isolated_iff_no_incident_edge",
     "adjacencyList_rows", "edge_test_iff_in_edges",
-    "mask_induced", "mask_points_follow", "fromMask_spec",
+    "mask_induced", "mask_points_follow", "fromMask_spec", "mask_mask",
     "tree_parent_children_inverse", "tree_depth_parent", "tree_leaf_iff_no_children",
     "hasCycles_correct_small_undirected", "hasCycles_correct_small_directed",
     "isTree_directed_coded_refuted", "isTree_spec_small_directed", "treeCtor_spec_small",
@@ -68,6 +98,18 @@ THEOREMS = [_T + t for t in [
     "allPaths_exactly_simple_routes",
     "shortest_path_cost_coded", "shortest_path_cost_refuted", "shortest_path_self_refuted",
     "shortest_route_weight_is_distance", "reference_distance_correct",
+    # graphs of every size
+    "hasCyclesL_correct_directed", "hasCyclesL_correct_undirected",
+    "hasCycles_correct_directed", "hasCycles_correct_undirected",
+    "isTree_undirected_spec", "isTree_directed_spec", "treeCtor_spec", "tree_relations_total", "tree_levels",
+    "reference_components_correct",
+    "treeFromMask_root_component", "pruneLoop_root_component",
+    "kruskal_minimum_spanning_forest",
+    # the lemmas the above rest on, audited by name as well
+    "Dfs.dfs_exec", "Dfs.hasCyclesL_directed", "Dfs.hasCyclesL_undirected", "Dfs.back_nil_iff_edge_count",
+    "hasCycles_eq_refCycleD", "hasCycles_eq_refCycleU", "refCycleU_iff", "isTree_eq_refTreeU", "isTree_eq_refPolytree",
+    "treeCtorOk_eq", "treeCtor_depth_total", "mem_reachFrom", "nComponents_eq_count",
+    "kruskal_minimal", "kruskal_spanning", "kruskal_forest", "kruskal_count_components",
 ]]
 
 S_COST = "C14/find_shortest_path.cost/start!=end"
@@ -132,11 +174,20 @@ class G(object):
         rk = {v: i for i, v in enumerate(keep)}
         return G(self.kind, len(keep), {(rk[i], rk[j]): x for (i, j), x in self.w.items() if mask[i] and mask[j]}), keep
 
-    def py(self, cls=None, point=False):
-        """runnable construction snippet for replays"""
+    def py(self, cls=None, point=False, variant=None):
+        """runnable construction snippet for replays (variant 'rep[:dtype]': the matrix representation handed over)"""
         cls = cls or (("Point" if point else "") + ("DirectedGraph" if self.directed else "UndirectedGraph"))
-        s = "import numpy as np; from menpo.shape import *; A = np.zeros((%d, %d), dtype=int); " % (self.n, self.n)
+        rep, _, dt = (variant or "dense").partition(":")
+        s = "import numpy as np, scipy.sparse as sp; from menpo.shape import *; A = np.zeros((%d, %d), dtype=int); " % (self.n, self.n)
         s += "".join("A[%d, %d] = %d; " % (i, j, x) for (i, j), x in sorted(self.w.items()))
+        if dt and dt != "int64":
+            s += "A = A.astype(%r); " % dt
+        if rep == "csrz":
+            zs = zero_positions(self)
+            s += ("A = sp.csr_matrix(A); Z = %r; A = sp.csr_matrix((list(A.data) + [0] * len(Z), (list(A.nonzero()[0]) + [z[0] for z in Z], "
+                  "list(A.nonzero()[1]) + [z[1] for z in Z])), shape=A.shape, dtype=A.dtype); " % [list(z) for z in zs])
+        elif rep in SPARSE_REPS:
+            s += "A = sp.%s(A); " % SPARSE_REPS[rep]
         if point:
             s += "P = np.arange(%d, dtype=float).reshape(%d, 2); g = %s(P, A)" % (2 * self.n, self.n, cls)
         else:
@@ -145,7 +196,7 @@ class G(object):
 
     def rp(self, **kw):
         d = {"kind": self.kind, "n": self.n, "entries": [[i, j, x] for (i, j), x in sorted(self.w.items())],
-             "construct": self.py()}
+             "construct": self.py(point=bool(kw.get("point", False)), variant=kw.get("variant"))}
         d.update(kw)
         return d
 
@@ -227,6 +278,29 @@ def dijkstra(g, s):
     return d
 
 
+def bellman_ford(g, s):
+    """reference distances with arbitrary-sign weights; None when a negative cycle is reachable from s"""
+    d = [INF] * g.n
+    d[s] = 0
+    es = sorted(g.w.items())
+    for _ in range(g.n):
+        changed = False
+        for (a, c), x in es:
+            if d[a] != INF and d[a] + x < d[c]:
+                d[c] = d[a] + x
+                changed = True
+        if not changed:
+            return d
+    return None
+
+
+def ref_distances(g, s):
+    """Dijkstra for non-negative weights, Bellman-Ford as soon as one weight is negative"""
+    if any(x < 0 for x in g.w.values()):
+        return bellman_ford(g, s)
+    return dijkstra(g, s)
+
+
 def simple_paths(g, s, t):
     res = []
 
@@ -276,11 +350,76 @@ def points_for(n, dims=2):
     return np.array([[(3 * i + 1) * 0.5, 7.0 - 0.25 * i * i, 1.0 + i][:dims] for i in range(n)], dtype=float)
 
 
-def build(g, variant, point, rng=None):
-    """the real menpo object; variant: edges | dense | csr"""
-    from scipy.sparse import csr_matrix
+DTYPES = ("int64", "int32", "bool", "float64", "float32", "uint8")
+SPARSE_REPS = {"csr": "csr_matrix", "csc": "csc_matrix", "coo": "coo_matrix", "lil": "lil_matrix", "csr_array": "csr_array"}
+# Graph.__init__: "adjacency_matrix must be either a numpy.ndarray or a scipy.sparse.csr_matrix" (ValueError by design)
+REFUSED_REPS = ("csc", "coo", "lil", "csr_array")
+
+
+# A csr matrix may store a zero explicitly.  The class docstring says "non-edges must be represented with zeros", and
+# every edge query (edges, n_edges, is_edge, neighbours / children / parents, adjacency list, isolated vertices,
+# has_cycles, find_all_paths) indeed reads a stored zero as a non-edge - but scipy.sparse.csgraph reads it as an edge of
+# weight zero, so is_tree (connected_components), find_path, find_shortest_path and minimum_spanning_tree walk through
+# it (candidate defect, proposed repair notes/fixes/C14-explicit-zeros.diff: eliminate_zeros() in Graph.__init__).
+# While the constructor keeps stored zeros, the csgraph-backed queries are left out for such matrices (counted as
+# 'explicit-zeros:csgraph-queries-left-out'); as soon as the constructor drops them (or with this switch on) they
+# are checked like on any other graph.
+STORED_ZEROS_STRICT = False
+
+
+def zeros_dropped(obj):
+    A = obj.adjacency_matrix
+    return A.nnz == A.count_nonzero()
+
+
+def dtype_ok(g, dt):
+    """can the weights of g be stored exactly in dtype dt"""
+    if dt == "bool":
+        return all(x == 1 for x in g.w.values())
+    if dt == "uint8":
+        return all(0 < x < 256 for x in g.w.values())
+    return True
+
+
+def zero_positions(g):
+    """non-edge positions that the 'csrz' representation stores as explicit zeros (deterministic; symmetric pattern)"""
+    return [(i, j) for i in range(g.n) for j in range(g.n)
+            if (i, j) not in g.w and (j, i) not in g.w and (i + j) % 3 != 2]
+
+
+def matrix_for(g, variant):
+    """the adjacency argument of the constructor for variant 'rep[:dtype]';
+    rep: dense | csr | csrz (csr with explicitly stored zeros at non-edges) | csc | coo | lil | csr_array"""
+    import scipy.sparse as sp
+    rep, _, dt = variant.partition(":")
+    a = g.dense().astype(np.dtype(dt or "int64"))
+    if rep == "dense":
+        return a
+    if rep == "csrz":
+        ks = sorted(g.w)
+        zs = zero_positions(g)
+        data = np.array([g.w[k] for k in ks] + [0] * len(zs)).astype(a.dtype)
+        return sp.csr_matrix((data, ([k[0] for k in ks] + [z[0] for z in zs], [k[1] for k in ks] + [z[1] for z in zs])),
+                             shape=(g.n, g.n), dtype=a.dtype)
+    return getattr(sp, SPARSE_REPS[rep])(a)
+
+
+def random_variant(rng, g, edges_ok=True):
+    """a construction route this graph can take: edge list (unit weights, no loops) or matrix representation x dtype"""
+    unit = all(x == 1 for x in g.w.values())
+    if edges_ok and unit and not any(i == j for i, j in g.w) and rng.random() < 0.25:
+        return "edges"
+    return rng.choice(["dense", "csr"]) + ":" + rng.choice([d for d in DTYPES if dtype_ok(g, d)])
+
+
+def graph_class(g, point):
     from menpo import shape as ms
-    cls = getattr(ms, ("Point" if point else "") + ("DirectedGraph" if g.directed else "UndirectedGraph"))
+    return getattr(ms, ("Point" if point else "") + ("DirectedGraph" if g.directed else "UndirectedGraph"))
+
+
+def build(g, variant, point, rng=None):
+    """the real menpo object; variant: edges | rep[:dtype] (see matrix_for)"""
+    cls = graph_class(g, point)
     if variant == "edges":
         es = sorted(g.edge_set())
         if rng is not None and es:
@@ -293,12 +432,36 @@ def build(g, variant, point, rng=None):
         if point:
             return cls.init_from_edges(points_for(g.n), arr)
         return cls.init_from_edges(arr, g.n)
-    a = g.dense()
-    if variant == "csr":
-        a = csr_matrix(a)
-    if point:
-        return cls(points_for(g.n), a)
-    return cls(a)
+    a = matrix_for(g, variant)
+    obj = cls(points_for(g.n), a) if point else cls(a)
+    obj.__dict__["_verif_variant"] = variant    # harness-side note for the replays: how this object was built
+    return obj
+
+
+def how(obj):
+    return obj.__dict__.get("_verif_variant")
+
+
+def base_snap(obj):
+    """the snapshot taken when the harness first met the object (every later snapshot must equal it)"""
+    d = obj.__dict__
+    if "_verif_snap" not in d:
+        d["_verif_snap"] = snap(obj)
+    return d["_verif_snap"]
+
+
+def snap(obj):
+    """semantic content of the receiver (adjacency values and dtype, points, tree bookkeeping): queries, from_mask
+    and minimum_spanning_tree must leave it unchanged.  The dense form is compared, not the raw index arrays:
+    scipy may lazily sort the indices of a matrix in place, which is not a change of the graph."""
+    A = obj.adjacency_matrix
+    s = [A.dtype.str, A.shape, A.toarray().tobytes()]
+    if hasattr(obj, "points"):
+        s.append(obj.points.tobytes())
+    if hasattr(obj, "root_vertex"):
+        s.append(int(obj.root_vertex))
+        s.append(tuple(None if x is None else int(x) for x in obj.predecessors_list))
+    return s
 
 
 def ints(xs):
@@ -377,29 +540,32 @@ class Batch(object):
         self.lines = []
         self.expect = {}   # id -> (op, impl string or callable(reply) -> problem text | None, replay)
 
+    # operations whose answer depends on the zero pattern of the matrix only (weights are at most echoed)
+    STRUCTURAL = ("basic", "mask", "tmask", "paths", "tree", "levels", "fp")
+
     def add(self, op, args, impl, replay):
         if "-" in args:
             # a negative edge weight (vertex ids are never negative): the Lean graph model carries natural-number
-            # weights, so such graphs are judged by the oracle on the real code only
-            self.skipped_negative = getattr(self, "skipped_negative", 0) + 1
-            return
+            # weights.  For the structural operations the same graph with every weight replaced by its absolute
+            # value has the same zero pattern, so model and implementation are compared on |w| (echoed weights are
+            # compared by absolute value); operations that add or order weights (sp, mst, mste, dist) are judged by
+            # the oracle on the real code only
+            if op not in self.STRUCTURAL:
+                self.skipped_negative = getattr(self, "skipped_negative", 0) + 1
+                return
+            import re
+            self.abs_weights = getattr(self, "abs_weights", 0) + 1
+            args = re.sub(r"-(\d)", r"\1", args)
+            if isinstance(impl, str):
+                impl = re.sub(r"(?<![\d])-(\d)", r"\1", impl)   # 'a-b' edge pairs and the empty marker '-' stay
         cid = "q%d" % len(self.lines)
         self.lines.append("%s %s %s" % (cid, op, args))
         self.expect[cid] = (op, impl, replay)
 
 
-def check_basic(ctx, b, g, variant, point, rng=None, full=True):
-    """queries of one graph on the real class vs the oracle; returns the object"""
-    site = "C14/queries"
-    rp = g.rp(variant=variant, point=point, call="g.edges, g.get_adjacency_list(), g.isolated_vertices(), g.has_cycles(), g.is_tree(), "
-              + ("g.children(v), g.parents(v)" if g.directed else "g.neighbours(v)") + ", g.is_edge(u, v)")
-    st, obj = guarded(build, g, variant, point, rng)
-    ctx.case(("basic", g.key(), variant, point), nontrivial=bool(g.w),
-             sample={"graph": g.wire(), "op": "basic queries", "class": type(obj).__name__ if st == "ok" else st})
-    ctx.count("basic:%s:%s:%s" % (g.kind, variant, "point" if point else "abstract"))
-    if st != "ok":
-        ctx.fail("C14/construct", "raises:" + str(obj), "constructing the graph raised %s" % obj, rp)
-        return None
+def battery(ctx, obj, g, rp, rng=None, full=True, site="C14/queries", trees=True, vs=None):
+    """every plain query of one graph object against the oracle graph g (whatever the object's history);
+    returns the observations the model comparison needs"""
     n = g.n
     exp_edges = g.edge_set()
     ed = [tuple(ints(e)) for e in obj.edges.tolist()] if obj.edges.size else []
@@ -414,7 +580,8 @@ def check_basic(ctx, b, g, variant, point, rng=None, full=True):
     ctx.check(adj == [sorted(g.out[v]) for v in range(n)], site, "adjacency-list",
               "adjacency list %r vs edges %r" % (adj, sorted(exp_edges)), rp)
     par = []
-    vs = range(n) if full or rng is None or n <= 2 else sorted(rng.sample(range(n), 2))   # quick: 2 seeded vertices
+    if vs is None:
+        vs = range(n) if full or rng is None or n <= 2 else sorted(rng.sample(range(n), 2))   # quick: 2 seeded vertices
     for v in vs:
         if g.directed:
             ch = sorted(ints(obj.children(v)))
@@ -444,22 +611,24 @@ def check_basic(ctx, b, g, variant, point, rng=None, full=True):
     rc = ref_cycle(g)
     ctx.check(cyc == rc, "C14/has_cycles", "detector!=reference",
               "has_cycles() = %r, reference (%s) = %r" % (cyc, "Kahn" if g.directed else "cyclomatic number", rc), rp)
-    it = bool(obj.is_tree())
-    und_tree = ref_tree_undirected_reading(g)
-    oracle_tree_ok = True
-    if not g.directed:
-        oracle_tree_ok = ctx.check(it == und_tree, "C14/is_tree/undirected", "is_tree!=connected-acyclic",
-                                   "is_tree() = %r, connected and acyclic = %r" % (it, und_tree), rp)
-    else:
-        arb = any(ref_arborescence(g, r) for r in range(n))
-        if it and not und_tree:
-            oracle_tree_ok = False
-            ctx.fail("C14/is_tree/directed", "accepts-non-tree",
-                     "DirectedGraph.is_tree() is True although the underlying graph is not a tree "
-                     "(disconnected or with an undirected cycle)", rp)
-        if arb and not it:
-            oracle_tree_ok = False
-            ctx.fail("C14/is_tree/directed", "rejects-arborescence", "is_tree() is False for a rooted tree", rp)
+    it, oracle_tree_ok = None, False
+    if trees:
+        it = bool(obj.is_tree())
+        und_tree = ref_tree_undirected_reading(g)
+        oracle_tree_ok = True
+        if not g.directed:
+            oracle_tree_ok = ctx.check(it == und_tree, "C14/is_tree/undirected", "is_tree!=connected-acyclic",
+                                       "is_tree() = %r, connected and acyclic = %r" % (it, und_tree), rp)
+        else:
+            arb = any(ref_arborescence(g, r) for r in range(n))
+            if it and not und_tree:
+                oracle_tree_ok = False
+                ctx.fail("C14/is_tree/directed", "accepts-non-tree",
+                         "DirectedGraph.is_tree() is True although the underlying graph is not a tree "
+                         "(disconnected or with an undirected cycle)", rp)
+            if arb and not it:
+                oracle_tree_ok = False
+                ctx.fail("C14/is_tree/directed", "rejects-arborescence", "is_tree() is False for a rooted tree", rp)
     impl = "ok edges=%s;adj=%s;iso=%s;" % (fe(sorted(ed)), fll(adj), fl(iso))
 
     def cmp(reply, impl=impl, it=it, ok=oracle_tree_ok, directed=g.directed, vs=list(vs), par=par, cyc=cyc):
@@ -477,24 +646,60 @@ def check_basic(ctx, b, g, variant, point, rng=None, full=True):
         if ok and f["tree"] != str(int(it)):
             return "is_tree: model %s vs implementation %d" % (f["tree"], it)
         return None
+    return cmp
+
+
+def check_basic(ctx, b, g, variant, point, rng=None, full=True):
+    """queries of one graph on the real class vs the oracle; returns the object"""
+    rep = variant.partition(":")[0]
+    rp = g.rp(variant=variant, point=point, call="g.edges, g.get_adjacency_list(), g.isolated_vertices(), g.has_cycles(), g.is_tree(), "
+              + ("g.children(v), g.parents(v)" if g.directed else "g.neighbours(v)") + ", g.is_edge(u, v)")
+    st, obj = guarded(build, g, variant, point, rng)
+    ctx.case(("basic", g.key(), variant, point), nontrivial=bool(g.w),
+             sample={"graph": g.wire(), "op": "basic queries", "class": type(obj).__name__ if st == "ok" else st})
+    ctx.count("basic:%s:%s:%s" % (g.kind, rep, "point" if point else "abstract"))
+    if ":" in variant:
+        ctx.count("matrix:%s" % variant)
+    ws = list(g.w.values())
+    if any(x < 0 for x in ws):
+        ctx.count("basic:weights:" + ("all-negative" if all(x < 0 for x in ws) else "mixed-sign"))
+    if st == "err" and rep in REFUSED_REPS:
+        ctx.count("construct-refused-by-design(ValueError):" + rep)   # documented: ndarray or csr_matrix only
+        return None
+    if st != "ok":
+        ctx.fail("C14/construct", "raises:" + str(obj), "constructing the graph raised %s" % obj, rp)
+        return None
+    if rep in REFUSED_REPS:
+        ctx.count("construct-accepted:" + rep)    # should the class start to accept it, it has to behave like any other graph
+    # explicitly stored zeros are non-edges for every edge query; is_tree goes through scipy.csgraph (see STORED_ZEROS_STRICT)
+    cmp = battery(ctx, obj, g, rp, rng, full, trees=rep != "csrz" or STORED_ZEROS_STRICT or zeros_dropped(obj))
     b.add("basic", g.wire(), cmp, rp)
     return obj
 
 
-def check_from_edges(ctx, b, rng, kind, n, es):
-    """edge list (duplicates, both orientations, loops) -> adjacency, on the real converter"""
-    from menpo import shape as ms
+def check_from_edges(ctx, b, rng, kind, n, es, point=False):
+    """edge list (duplicates, both orientations, loops, isolated first / last vertex) -> adjacency, on the real
+    converter; the object that comes out answers the whole query battery consistently with the edge set.
+    The number of vertices comes from the argument (abstract) / from the points (Point variants), never from the
+    largest index of the list."""
     directed = kind == "D"
-    cls = ms.DirectedGraph if directed else ms.UndirectedGraph
-    rp = {"kind": kind, "n": n, "edges": [list(e) for e in es],
-          "construct": "import numpy as np; from menpo.shape import *; g = %s.init_from_edges(np.array(%r), %d)"
-                       % (cls.__name__, [list(e) for e in es], n)}
+    proto = G(kind, 1, {})
+    cls = graph_class(proto, point)
+    lst = [list(e) for e in es]
+    rp = {"kind": kind, "n": n, "edges": lst, "point": point,
+          "construct": ("import numpy as np; from menpo.shape import *; " +
+                        ("g = %s.init_from_edges(np.arange(%d, dtype=float).reshape(%d, 2), np.array(%r))" % (cls.__name__, 2 * n, n, lst)
+                         if point else "g = %s.init_from_edges(np.array(%r), %d)" % (cls.__name__, lst, n)))}
     how = rng.choice(["array", "list"]) if es else rng.choice(["none", "empty"])
     arg = {"array": np.array(es, dtype=int), "list": [list(e) for e in es], "none": None,
            "empty": np.zeros((0, 2), dtype=int)}[how] if es or how in ("none", "empty") else None
-    ctx.count("from_edges:%s:%s" % (kind, how))
-    ctx.case(("fe", kind, n, tuple(es)), nontrivial=bool(es), sample={"op": "init_from_edges", "edges": es, "n": n})
-    st, obj = guarded(cls.init_from_edges, arg, n)
+    ctx.count("from_edges:%s:%s:%s" % (kind, how, "point" if point else "abstract"))
+    used = set(v for e in es for v in e)
+    if n >= 3 and es and 0 not in used and n - 1 not in used:
+        ctx.count("from_edges:isolated-0-and-last:" + cls.__name__)
+    ctx.case(("fe", kind, n, tuple(es), point), nontrivial=bool(es), sample={"op": "init_from_edges", "edges": es, "n": n})
+    pts = points_for(n)
+    st, obj = guarded(cls.init_from_edges, pts, arg) if point else guarded(cls.init_from_edges, arg, n)
     if st != "ok":
         ctx.fail("C14/init_from_edges", "raises:" + str(obj), "init_from_edges raised %s" % obj, rp)
         return
@@ -503,22 +708,44 @@ def check_from_edges(ctx, b, rng, kind, n, es):
     ned = ed if directed else [tuple(sorted(e)) for e in ed]
     ctx.check(set(ned) == exp and len(ned) == len(exp), "C14/init_from_edges", "edge-set",
               "edges %r from edge list %r" % (sorted(ed), es), rp)
+    ctx.check(obj.n_vertices == n, "C14/init_from_edges", "n_vertices",
+              "n_vertices = %r for %d requested vertices (largest index used: %r)" % (obj.n_vertices, n, max(used) if used else None), rp)
     A = obj.adjacency_matrix
     if not directed:
         ctx.check((A != A.T).nnz == 0, "C14/init_from_edges", "asymmetric", "adjacency not symmetric", rp)
+    if point:
+        ctx.check(np.array_equal(obj.points, pts), "C14/init_from_edges", "points", "the points were changed", rp)
     dense = np.asarray(A.todense()).astype(int)
     impl = "ok edges=%s;w=%s" % (fe(sorted(ed)), fll(dense.tolist()))
     b.add("fe", "%s %d %d %s" % (kind, n, len(es), " ".join("%d %d" % e for e in es)), impl, rp)
+    # the whole battery on the result: a repeated directed edge is stored with its multiplicity (still one edge)
+    if obj.n_vertices == n:
+        if directed:
+            w = {}
+            for e in es:
+                w[e] = w.get(e, 0) + 1
+            ge = G("D", n, w)
+        else:
+            ge = G.undirected(n, sorted(exp))
+        before = snap(obj)
+        cmp = battery(ctx, obj, ge, rp, rng, full=n <= 6, site="C14/init_from_edges/queries",
+                      vs=None if n <= 6 else sorted({0, n - 1, rng.randrange(n)}))
+        b.add("basic", ge.wire(), cmp, rp)
+        ctx.check(snap(obj) == before, "C14/receiver-unchanged", "after:queries", "the basic queries changed the graph they were asked on", rp)
 
 
-def check_mask(ctx, b, g, obj, mask):
-    """Point(Un)directedGraph.from_mask"""
+def check_mask(ctx, b, g, obj, mask, rng=None, deep=False, trees=True):
+    """Point(Un)directedGraph.from_mask; deep: the result (an object with a previous life) answers the whole
+    query battery and is masked a second time"""
     site = "C14/from_mask"
-    rp = g.rp(point=True, mask=[int(x) for x in mask],
+    rp = g.rp(point=True, variant=how(obj), mask=[int(x) for x in mask],
               call="g.from_mask(np.array(%r, dtype=bool))" % [bool(x) for x in mask])
     ctx.case(("mask", g.key(), tuple(mask)), nontrivial=bool(g.w), sample={"graph": g.wire(), "op": "from_mask", "mask": list(mask)})
     pts = obj.points.copy()
+    before = base_snap(obj)
     st, h = guarded(obj.from_mask, np.array(mask, dtype=bool))
+    ctx.check(snap(obj) == before, "C14/receiver-unchanged", "after:from_mask",
+              "from_mask changed the receiver (adjacency matrix or points)", rp)
     eg, keep = g.masked(mask)
     if not keep:
         ctx.count("mask:all-false")
@@ -542,13 +769,51 @@ def check_mask(ctx, b, g, obj, mask):
                   "points do not follow the surviving vertices", rp)
         ctx.check(np.array_equal(obj.points, pts), site, "receiver-changed", "from_mask changed the receiver's points", rp)
         impl = "ok n=%d;keep=%s;w=%s" % (len(keep), fl(keep), fll(dense.tolist()))
+        if deep and ok and rng is not None:
+            _masked_life(ctx, b, rng, eg, h, rp, trees)
     b.add("mask", "%s %d %s" % (g.wire(), len(mask), " ".join(str(int(x)) for x in mask)), impl, rp)
+
+
+def _masked_life(ctx, b, rng, eg, h, rp, trees=True):
+    """the result h of a from_mask (oracle graph eg): whole battery, then a second mask, battery again"""
+    site = "C14/from_mask/second-life"
+    m = eg.n
+    ctx.count("mask:deep")
+    rp1 = dict(rp, call=rp["call"] + " -> h; every basic query on h")
+    hp = h.points.copy()
+    before = snap(h)
+    cmp = battery(ctx, h, eg, rp1, rng, full=m <= 6, site="C14/from_mask/queries", trees=trees,
+                  vs=None if m <= 6 else sorted({0, m - 1, rng.randrange(m)}))
+    b.add("basic", eg.wire(), cmp, rp1)
+    m2 = tuple(int(rng.random() < 0.7) for _ in range(m))
+    if not any(m2):
+        m2 = tuple([1] + [0] * (m - 1))
+    rp2 = dict(rp, mask2=list(m2), call=rp["call"] + ".from_mask(np.array(%r, dtype=bool))" % [bool(x) for x in m2])
+    st, h2 = guarded(h.from_mask, np.array(m2, dtype=bool))
+    ctx.check(snap(h) == before, "C14/receiver-unchanged", "after:from_mask", "queries / a second from_mask changed the masked graph", rp2)
+    if st != "ok":
+        ctx.fail(site, "raises:" + str(h2), "masking a masked graph raised %s" % h2, rp2)
+        return
+    eg2, keep2 = eg.masked(m2)
+    d2 = np.asarray(h2.adjacency_matrix.todense()).astype(int)
+    ok = h2.n_vertices == len(keep2) and all(d2[i, j] == eg2.w.get((i, j), 0) for i in range(len(keep2)) for j in range(len(keep2)))
+    ctx.check(ok, site, "not-induced-subgraph", "second mask: entries %r, induced subgraph on %r is %r"
+              % (d2.tolist(), keep2, sorted(eg2.w.items())), rp2)
+    ctx.check(h2.points.shape[0] == len(keep2) and np.array_equal(h2.points, hp[keep2]), site, "points",
+              "second mask: points do not follow the surviving vertices", rp2)
+    b.add("mask", "%s %d %s" % (eg.wire(), m, " ".join(str(x) for x in m2)),
+          "ok n=%d;keep=%s;w=%s" % (len(keep2), fl(keep2), fll(d2.tolist())), rp2)
+    if ok:
+        k = eg2.n
+        cmp2 = battery(ctx, h2, eg2, rp2, rng, full=k <= 6, site="C14/from_mask/queries", trees=trees,
+                       vs=None if k <= 6 else sorted({0, k - 1, rng.randrange(k)}))
+        b.add("basic", eg2.wire(), cmp2, rp2)
 
 
 def check_paths(ctx, b, g, obj, s, t, all_paths=True):
     """find_all_paths / n_paths / find_path (bfs, dfs)"""
     from scipy.sparse import csgraph
-    rp = g.rp(start=s, end=t)
+    rp = g.rp(start=s, end=t, variant=how(obj), point=hasattr(obj, "points"))
     ctx.case(("paths", g.key(), s, t), nontrivial=bool(g.w), sample={"graph": g.wire(), "op": "find_path/find_all_paths", "pair": [s, t]})
     ref = simple_paths(g, s, t) if all_paths else None
     if all_paths:
@@ -599,18 +864,29 @@ def check_paths(ctx, b, g, obj, s, t, all_paths=True):
 
 
 def check_shortest(ctx, b, g, obj, s, t, algorithm="auto", unweighted=False):
-    rp = g.rp(start=s, end=t, algorithm=algorithm, unweighted=unweighted,
+    rp = g.rp(start=s, end=t, algorithm=algorithm, unweighted=unweighted, variant=how(obj), point=hasattr(obj, "points"),
               call="g.find_shortest_path(%d, %d, algorithm=%r, unweighted=%r)" % (s, t, algorithm, unweighted))
     ctx.case(("sp", g.key(), s, t, algorithm, unweighted), nontrivial=bool(g.w),
              sample={"graph": g.wire(), "op": "find_shortest_path", "pair": [s, t], "algorithm": algorithm})
     ctx.count("shortest:%s%s" % (algorithm, ":unweighted" if unweighted else ""))
     gw = g.unweighted() if unweighted else g
+    d = ref_distances(gw, s)
+    if d is None or (any(x < 0 for x in g.w.values()) and
+                     (algorithm not in ("BF", "J") or not g.directed or ref_cycle(g))):
+        # shortest paths on graphs with negative weights are only asked where they are well defined: directed
+        # acyclic graphs with the Bellman-Ford / Johnson options (the generators never ask for anything else)
+        ctx.count("shortest:negative-not-well-defined-skipped")
+        return
+    if any(x < 0 for x in g.w.values()):
+        ctx.count("shortest:negative-weights-dag:%s%s" % (algorithm, ":unweighted" if unweighted else ""))
+    before = base_snap(obj)
     st, res = guarded(obj.find_shortest_path, s, t, algorithm=algorithm, unweighted=unweighted)
+    ctx.check(snap(obj) == before, "C14/receiver-unchanged", "after:find_shortest_path",
+              "find_shortest_path changed the graph it was asked on", rp)
     if st != "ok":
         ctx.fail("C14/find_shortest_path", "raises:" + str(res), "find_shortest_path raised %s" % res, rp)
         return
     path, cost = ints(res[0]), float(res[1])
-    d = dijkstra(gw, s)
     if s == t:
         if path == [s] and cost == 0:
             pass
@@ -639,7 +915,7 @@ def check_shortest(ctx, b, g, obj, s, t, algorithm="auto", unweighted=False):
         cache[(algorithm, unweighted)] = obj.find_all_shortest_paths(algorithm=algorithm, unweighted=unweighted)
     dist, pred = cache[(algorithm, unweighted)]
     ctx.check(all((dist[s, v] == d[v]) for v in range(g.n)), "C14/find_all_shortest_paths", "distance!=reference",
-              "distances from %d are %r, Dijkstra gives %r" % (s, dist[s].tolist(), d), rp)
+              "distances from %d are %r, the reference (Dijkstra / Bellman-Ford) gives %r" % (s, dist[s].tolist(), d), rp)
     drow = " ".join("N" if x == INF else str(int(x)) for x in dist[s])
     prow = " ".join("N" if x < 0 else str(int(x)) for x in pred[s])
     impl = "ok path=%s;cost=%s;ref=%s;contract=1" % (fl(path), "N" if cost == INF else str(int(cost)),
@@ -647,22 +923,106 @@ def check_shortest(ctx, b, g, obj, s, t, algorithm="auto", unweighted=False):
     b.add("sp", "%s %d %d %d %s %d %s" % (gw.wire(), s, t, g.n, drow, g.n, prow), impl, rp)
 
 
-def check_tree_ctor(ctx, b, g, r, point, via):
-    """Tree / PointTree constructor with checks; returns the tree or None"""
+MODEL_TREE_NMAX = 16   # the additional `tree` model lines (spanning trees, masked trees) are sent up to this size:
+#                        the interpreted model needs ~0.1 s per 40-vertex tree; larger ones are judged by the oracle
+
+
+def tree_relations(ctx, t, g, r, rp, site="C14/tree-relations", exp=True):
+    """parent / children / depth / leaf relations of the tree object t, whose edges are those of the oracle graph g
+    (an arborescence rooted at r when exp).  Returns (ok, pred, depth, leaves); an exception inside a query is an
+    oracle failure, not a harness crash."""
+    n = g.n
+    ok = True
+    pred, depth, leaves = [], [], []
+    try:
+        pred = [None if x is None else int(x) for x in t.predecessors_list]
+        if exp:
+            ctx.check(int(t.root_vertex) == r and t.n_vertices == n, site, "root", "root_vertex = %r, n_vertices = %r" % (t.root_vertex, t.n_vertices), rp)
+        for v in range(n):
+            sd, dv = guarded(t.depth_of_vertex, v)
+            depth.append(int(dv) if sd == "ok" else None)
+            if not exp:
+                continue
+            ch = ints(t.children(v))
+            ctx.check(sorted(ch) == sorted(g.out[v]) and t.n_children(v) == len(ch), site, "children",
+                      "children(%d) = %r, the edges say %r" % (v, ch, sorted(g.out[v])), dict(rp, vertex=v))
+            ctx.check(sd == "ok", site, "depth-raises", "depth_of_vertex(%d) raised %s" % (v, dv), dict(rp, vertex=v))
+            pv = t.parent(v)
+            ctx.check(all(t.parent(c) == v for c in ch) and (v == r or (pv is not None and v in ints(t.children(pv)))),
+                      site, "parent-children", "parent/children are not inverse at vertex %d" % v, dict(rp, vertex=v))
+            ctx.check((pv is None) == (v == r) and pv == pred[v] and ints(t.parents(v)) == ([] if pv is None else [int(pv)]),
+                      site, "parent", "parent(%d) = %r" % (v, pv), dict(rp, vertex=v))
+            if sd == "ok" and pv is not None:
+                ctx.check(dv == t.depth_of_vertex(pv) + 1, site, "depth",
+                          "depth(%d) = %r is not depth(parent) + 1" % (v, dv), dict(rp, vertex=v))
+            if sd == "ok" and v == r:
+                ctx.check(dv == 0, site, "depth", "depth(root) = %r" % dv, dict(rp, vertex=v))
+            ctx.check(bool(t.is_leaf(v)) == (len(ch) == 0), site, "leaf", "is_leaf(%d) inconsistent with children" % v, dict(rp, vertex=v))
+        leaves = ints(t.leaves)
+        if exp:
+            ctx.check(leaves == [v for v in range(n) if not g.out[v]] and t.n_leaves == len(leaves), site, "leaves", "leaves = %r" % leaves, rp)
+            if all(x is not None for x in depth):
+                ctx.check(int(t.maximum_depth) == max(depth) and
+                          all(ints(t.vertices_at_depth(k)) == [v for v in range(n) if depth[v] == k] and
+                              t.n_vertices_at_depth(k) == depth.count(k) for k in range(max(depth) + 2)),
+                          site, "depth-levels", "maximum_depth / vertices_at_depth inconsistent with depth_of_vertex", rp)
+    except Exception as e:
+        if not through_menpo(e):
+            raise
+        ok = False
+        ctx.fail(site, "raises:" + type(e).__name__, "a tree query raised %s: %s" % (type(e).__name__, str(e)[:120]), rp)
+    return ok, pred, depth, leaves
+
+
+def tree_model_lines(ctx, b, t, wire, r, n, pred, depth, leaves, rp):
+    """the model comparison of an accepted tree: predecessors / depths / leaves, and (small trees) maximum_depth,
+    vertices_at_depth, n_vertices_at_depth for the levels 0 .. maximum_depth + 1, n_leaves"""
+    b.add("tree", "%s %d" % (wire, r), "ok pred=%s;depth=%s;leaves=%s" % (
+        ",".join(fo(x) for x in pred), ",".join(fo(x) for x in depth), fl(leaves)), rp)
+    if n > MODEL_TREE_NMAX or any(x is None for x in depth):
+        return
+    try:
+        M = int(t.maximum_depth)
+        lv = [ints(t.vertices_at_depth(k)) for k in range(M + 2)]
+        cn = [int(t.n_vertices_at_depth(k)) for k in range(M + 2)]
+        nl = int(t.n_leaves)
+    except Exception as e:   # reported by tree_relations already when it comes from menpo
+        if not through_menpo(e):
+            raise
+        return
+    ctx.count("model-levels")
+    b.add("levels", "%s %d" % (wire, r), "ok max=%d;levels=%s;counts=%s;nleaves=%d" % (M, fll(lv), fl(cn), nl),
+          dict(rp, call=str(rp.get("call", "")) + "; t.maximum_depth, t.vertices_at_depth(k), t.n_vertices_at_depth(k), t.n_leaves"))
+
+
+def check_tree_ctor(ctx, b, g, r, point, via, rng=None):
+    """Tree / PointTree constructor with checks; returns the tree or None.  via 'edges': init_from_edges (with an
+    rng the list is shuffled and may repeat an edge: still the same edge set); via 'matrix[:dtype]'"""
     from menpo import shape as ms
     cls = ms.PointTree if point else ms.Tree
     es = sorted(g.edge_set())
-    arr = np.array(es, dtype=int) if es else None
     if via == "edges":
+        # an edge of weight k > 1 stands for an edge listed k times (the converter stores the multiplicity)
+        if any(x > 1 for x in g.w.values()):
+            es = [e for e in es for _ in range(g.w[e])]
+            ctx.count("tree-ctor:edge-list-with-duplicate")
+        if rng is not None and es:
+            rng.shuffle(es)
+        arr = np.array(es, dtype=int) if es else None
         args = (points_for(g.n), arr, r) if point else (arr, g.n, r)
         ctor = cls.init_from_edges
         call = ("PointTree.init_from_edges(P, np.array(%r), %d)" % ([list(e) for e in es], r) if point else
                 "Tree.init_from_edges(np.array(%r), %d, %d)" % ([list(e) for e in es], g.n, r))
+        variant = None
     else:
-        args = (points_for(g.n), g.dense(), r) if point else (g.dense(), r)
+        variant = "dense:" + (via.partition(":")[2] or "int64")
+        a = matrix_for(g, variant)
+        args = (points_for(g.n), a, r) if point else (a, r)
         ctor = cls
         call = "%s(%sA, %d)" % (cls.__name__, "P, " if point else "", r)
-    rp = g.rp(root=r, point=point, call=call)
+        if variant != "dense:int64":
+            ctx.count("tree-ctor:" + variant)
+    rp = g.rp(root=r, point=point, call=call, variant=variant)
     ctx.case(("tree", g.key(), r, point, via), nontrivial=bool(g.w), sample={"graph": g.wire(), "op": "Tree constructor", "root": r})
     st, t = guarded(ctor, *args)
     exp = g.n >= 2 and ref_arborescence(g, r)
@@ -684,61 +1044,18 @@ def check_tree_ctor(ctx, b, g, r, point, via):
             b.add("tree", "%s %d" % (g.wire(), r), lambda reply: None if reply.startswith("err") else
                   "model accepts the tree, implementation refuses", rp)
         return None
-    # relations of an accepted tree (an exception inside a query is an oracle failure, not a harness crash)
-    site = "C14/tree-relations"
-    n = g.n
-    pred, depth, leaves = [], [], []
-    try:
-        pred = [None if x is None else int(x) for x in t.predecessors_list]
-        for v in range(n):
-            sd, dv = guarded(t.depth_of_vertex, v)
-            depth.append(int(dv) if sd == "ok" else None)
-            if not exp:
-                continue
-            ch = ints(t.children(v))
-            ctx.check(sd == "ok", site, "depth-raises", "depth_of_vertex(%d) raised %s" % (v, dv), dict(rp, vertex=v))
-            pv = t.parent(v)
-            ctx.check(all(t.parent(c) == v for c in ch) and (v == r or (pv is not None and v in ints(t.children(pv)))),
-                      site, "parent-children", "parent/children are not inverse at vertex %d" % v, dict(rp, vertex=v))
-            ctx.check((pv is None) == (v == r) and pv == pred[v], site, "parent", "parent(%d) = %r" % (v, pv), dict(rp, vertex=v))
-            if sd == "ok" and pv is not None:
-                ctx.check(dv == t.depth_of_vertex(pv) + 1, site, "depth",
-                          "depth(%d) = %r is not depth(parent) + 1" % (v, dv), dict(rp, vertex=v))
-            if sd == "ok" and v == r:
-                ctx.check(dv == 0, site, "depth", "depth(root) = %r" % dv, dict(rp, vertex=v))
-            ctx.check(bool(t.is_leaf(v)) == (len(ch) == 0), site, "leaf", "is_leaf(%d) inconsistent with children" % v, dict(rp, vertex=v))
-        leaves = ints(t.leaves)
-        if exp:
-            ctx.check(leaves == [v for v in range(n) if not g.out[v]] and t.n_leaves == len(leaves), site, "leaves", "leaves = %r" % leaves, rp)
-            if all(x is not None for x in depth):
-                ctx.check(int(t.maximum_depth) == max(depth) and
-                          all(ints(t.vertices_at_depth(k)) == [v for v in range(n) if depth[v] == k] and
-                              t.n_vertices_at_depth(k) == depth.count(k) for k in range(max(depth) + 2)),
-                          site, "depth-levels", "maximum_depth / vertices_at_depth inconsistent with depth_of_vertex", rp)
-    except Exception as e:
-        ok = False
-        ctx.fail(site, "raises:" + type(e).__name__, "a tree query raised %s: %s" % (type(e).__name__, str(e)[:120]), rp)
-    if ok:
-        b.add("tree", "%s %d" % (g.wire(), r), "ok pred=%s;depth=%s;leaves=%s" % (
-            ",".join(fo(x) for x in pred), ",".join(fo(x) for x in depth), fl(leaves)), rp)
+    # relations of an accepted tree
+    before = snap(t)
+    rok, pred, depth, leaves = tree_relations(ctx, t, g, r, rp, exp=exp)
+    ctx.check(snap(t) == before, "C14/receiver-unchanged", "after:tree-queries", "the tree queries changed the tree", rp)
+    if ok and rok:
+        tree_model_lines(ctx, b, t, g.wire(), r, g.n, pred, depth, leaves, rp)
     return t
 
 
-def check_tree_mask(ctx, b, g, r, tree, mask):
-    """PointTree.from_mask: what stays connected to the root, renumbered in order, root re-indexed"""
-    site = "C14/PointTree.from_mask"
-    rp = g.rp(root=r, mask=[int(x) for x in mask], point=True,
-              call="PointTree(P, A, %d).from_mask(np.array(%r, dtype=bool))" % (r, [bool(x) for x in mask]))
-    ctx.case(("tmask", g.key(), r, tuple(mask)), nontrivial=True, sample={"graph": g.wire(), "op": "PointTree.from_mask", "root": r, "mask": list(mask)})
-    pts = tree.points.copy()
-    st, h = guarded(tree.from_mask, np.array(mask, dtype=bool))
-    if not mask[r]:
-        ctx.count("tree-mask:root-removed")
-        ctx.check(st == "err", site, "root-removal-accepted", "masking out the root did not raise ValueError (%s)" % st, rp)
-        b.add("tmask", "%s %d %d %s" % (g.wire(), r, len(mask), " ".join(str(int(x)) for x in mask)),
-              lambda reply: None if reply.startswith("err") else "model accepts a mask that removes the root", rp)
-        return
-    # survivors: kept vertices whose whole ancestor chain is kept
+def tree_mask_expect(g, r, mask):
+    """oracle of PointTree.from_mask: the kept vertices whose whole ancestor chain is kept, renumbered in order.
+    Returns (keep, masked G, new root); mask[r] must be set"""
     par = {c: p for (p, c) in g.w}
     keep = []
     for v in range(g.n):
@@ -749,36 +1066,77 @@ def check_tree_mask(ctx, b, g, r, tree, mask):
         if ok and mask[v]:
             keep.append(v)
     rk = {v: i for i, v in enumerate(keep)}
+    return keep, G("D", len(keep), {(rk[p], rk[c]): x for (p, c), x in g.w.items() if p in rk and c in rk}), rk[r]
+
+
+def check_tree_mask(ctx, b, g, r, tree, mask, rng=None, deep=False, life=None):
+    """PointTree.from_mask: what stays connected to the root, renumbered in order, root re-indexed.
+    deep: every tree relation is asked on the result (a tree with a previous life), which is then masked again."""
+    site = "C14/PointTree.from_mask"
+    rp = g.rp(root=r, mask=[int(x) for x in mask], point=True,
+              call="PointTree(P, A, %d).from_mask(np.array(%r, dtype=bool))" % (r, [bool(x) for x in mask]))
+    if life is not None:
+        rp["previous_life"] = life    # the tree was itself produced by from_mask (graph / root / mask of that step)
+    ctx.case(("tmask", g.key(), r, tuple(mask), life is not None), nontrivial=True, sample={"graph": g.wire(), "op": "PointTree.from_mask", "root": r, "mask": list(mask)})
+    pts = tree.points.copy()
+    before = base_snap(tree)
+    st, h = guarded(tree.from_mask, np.array(mask, dtype=bool))
+    ctx.check(snap(tree) == before, "C14/receiver-unchanged", "after:PointTree.from_mask",
+              "from_mask changed the tree it was called on (adjacency, points, root or predecessor list)", rp)
+    wire = "%s %d %d %s" % (g.wire(), r, len(mask), " ".join(str(int(x)) for x in mask))
+    if not mask[r]:
+        ctx.count("tree-mask:root-removed")
+        ctx.check(st == "err", site, "root-removal-accepted", "masking out the root did not raise ValueError (%s)" % st, rp)
+        b.add("tmask", wire, lambda reply: None if reply.startswith("err") else "model accepts a mask that removes the root", rp)
+        return None
+    keep, eg, r1 = tree_mask_expect(g, r, mask)
     if len(keep) == 1:
         # only the root survives: menpo's Tree refuses single-vertex trees by design
         ctx.count("tree-mask:only-root-survives(%s)" % st)
         ctx.check(st != "exc", site, "raises:" + str(h), "from_mask raised %s" % h, rp)
-        return
+        return None
     ctx.count("tree-mask:kept=%d/%d" % (len(keep), g.n) if g.n <= 5 else "tree-mask:random")
     if st != "ok":
         ctx.fail(site, "raises:" + str(h), "from_mask raised %s for a mask that keeps the root and %d more connected vertices"
                  % (h, len(keep) - 1), rp)
-        return
-    exp_w = {(rk[p], rk[c]): x for (p, c), x in g.w.items() if p in rk and c in rk}
+        return None
     dense = np.asarray(h.adjacency_matrix.todense()).astype(int)
-    ok = (h.n_vertices == len(keep) and int(h.root_vertex) == rk[r] and
-          all(dense[i, j] == exp_w.get((i, j), 0) for i in range(len(keep)) for j in range(len(keep))))
+    ok = (h.n_vertices == len(keep) and int(h.root_vertex) == r1 and
+          all(dense[i, j] == eg.w.get((i, j), 0) for i in range(len(keep)) for j in range(len(keep))))
     ctx.check(ok, site, "not-root-component",
               "result has %d vertices, root %r, entries %r; expected the kept vertices connected to the root %r (root -> %d)"
-              % (h.n_vertices, h.root_vertex, dense.tolist(), keep, rk[r]), rp)
+              % (h.n_vertices, h.root_vertex, dense.tolist(), keep, r1), rp)
     ctx.check(h.points.shape[0] == len(keep) and np.array_equal(h.points, pts[keep]), site, "points", "points do not follow", rp)
-    ctx.check([None if x is None else int(x) for x in h.predecessors_list] ==
-              [None if v == r else rk[par[v]] for v in keep], site, "predecessors", "predecessor list of the masked tree is stale", rp)
-    b.add("tmask", "%s %d %d %s" % (g.wire(), r, len(mask), " ".join(str(int(x)) for x in mask)),
-          "ok n=%d;root=%d;keep=%s;w=%s" % (len(keep), int(h.root_vertex), fl(keep), fll(dense.tolist())), rp)
+    epred = [None] * len(keep)
+    for (p_, c_) in eg.w:
+        epred[c_] = p_
+    ctx.check([None if x is None else int(x) for x in h.predecessors_list] == epred, site, "predecessors",
+              "predecessor list of the masked tree is stale", rp)
+    b.add("tmask", wire, "ok n=%d;root=%d;keep=%s;w=%s" % (len(keep), int(h.root_vertex), fl(keep), fll(dense.tolist())), rp)
+    if deep and ok:
+        ctx.count("tree-mask:deep")
+        rp1 = dict(rp, call=rp["call"] + " -> h; every tree relation on h")
+        rok, pred, depth, leaves = tree_relations(ctx, h, eg, r1, rp1, site="C14/PointTree.from_mask/relations")
+        if rok and eg.n <= MODEL_TREE_NMAX:
+            tree_model_lines(ctx, b, h, eg.wire(), r1, eg.n, pred, depth, leaves, rp1)
+        if rng is not None:   # a second life: the masked tree is masked again (the root stays in 9 cases of 10)
+            m2 = [int(rng.random() < 0.7) for _ in range(eg.n)]
+            m2[r1] = int(rng.random() < 0.9)
+            ctx.count("tree-mask:second-mask")
+            check_tree_mask(ctx, b, eg, r1, h, tuple(m2), rng=None, deep=True,
+                            life={"entries": rp["entries"], "root": r, "mask": rp["mask"], "call": rp["call"]})
+    return h
 
 
-def check_mst(ctx, b, g, obj, r, point):
+def check_mst(ctx, b, g, obj, r, point, deep=True):
     site = "C14/minimum_spanning_tree"
-    rp = g.rp(root=r, point=point, call="g.minimum_spanning_tree(%d)" % r)
+    rp = g.rp(root=r, point=point, variant=how(obj), call="g.minimum_spanning_tree(%d)" % r)
     ctx.case(("mst", g.key(), r, point), nontrivial=bool(g.w), sample={"graph": g.wire(), "op": "minimum_spanning_tree", "root": r})
     iso = [v for v in range(g.n) if not g.out[v]]
+    before = base_snap(obj)
     st, t = guarded(obj.minimum_spanning_tree, r)
+    ctx.check(snap(obj) == before, "C14/receiver-unchanged", "after:minimum_spanning_tree",
+              "minimum_spanning_tree changed the graph it was asked on", rp)
     if iso:
         ctx.count("mst:isolated-refused")
         ctx.check(st == "err", site, "isolated-accepted", "a graph with isolated vertices did not raise ValueError", rp)
@@ -788,6 +1146,8 @@ def check_mst(ctx, b, g, obj, r, point):
         ctx.count("mst:disconnected-skipped")
         return
     ctx.count("mst:connected")
+    ws = list(g.w.values())
+    ctx.count("mst:weights:" + ("negative" if all(x < 0 for x in ws) else "mixed-sign" if any(x < 0 for x in ws) else "positive"))
     if st != "ok":
         ctx.fail(site, "raises:" + str(t), "minimum_spanning_tree raised %s" % t, rp)
         return
@@ -796,8 +1156,8 @@ def check_mst(ctx, b, g, obj, r, point):
     tg = G("D", g.n, {(i, j): int(dense[i, j]) for i, j in es})
     ctx.check(all((i, j) in g.w and dense[i, j] == g.w[(i, j)] for i, j in es), site, "edge-not-in-graph",
               "the tree has an edge or weight the graph does not have: %r" % es, rp)
-    ctx.check(ref_arborescence(tg, r) and int(t.root_vertex) == r, site, "not-spanning-tree",
-              "the result %r is not a spanning tree rooted at %d" % (es, r), rp)
+    spanning = ctx.check(ref_arborescence(tg, r) and int(t.root_vertex) == r, site, "not-spanning-tree",
+                         "the result %r is not a spanning tree rooted at %d" % (es, r), rp)
     tot = int(sum(dense[i, j] for i, j in es))
     ref = prim_weight(g)
     ctx.check(tot == ref, site, "weight-not-minimal", "tree weight %r, minimum (Prim) %r" % (tot, ref), rp)
@@ -807,6 +1167,188 @@ def check_mst(ctx, b, g, obj, r, point):
     ctx.check(all((pl[v] is None) == (v == r) and (v == r or (pl[v], v) in tg.w) for v in range(g.n)), site, "predecessors",
               "predecessor list %r does not describe the tree" % pl, rp)
     b.add("mst", g.wire(), "ok %d %d 1" % (tot, g.n - 1), rp)
+    und_w = [x for (i, j), x in g.w.items() if i < j]
+    if spanning and len(set(und_w)) == len(und_w) and all(x > 0 for x in und_w):
+        # pairwise different weights: the minimum spanning tree is unique, so the implementation's edge set must be
+        # the one the model's Kruskal reference chooses (kruskal_minimum_spanning_forest), listed by weight
+        ctx.count("mst:unique(model edge set compared)")
+        chosen = sorted((int(dense[i, j]), min(i, j), max(i, j)) for i, j in es)
+        b.add("mste", g.wire(), "ok " + (",".join("%d:%d-%d" % e for e in chosen) if chosen else "-"), rp)
+    if deep and spanning:
+        # the returned Tree / PointTree answers every tree relation consistently with its own edges
+        ctx.count("mst:tree-relations")
+        rp1 = dict(rp, call=rp["call"] + " -> t; every tree relation on t")
+        rok, pred, depth, leaves = tree_relations(ctx, t, tg, r, rp1, site="C14/minimum_spanning_tree/relations")
+        if rok and 2 <= g.n <= MODEL_TREE_NMAX:    # (a one-vertex 'tree' only exists with skip_checks: not in the model)
+            tree_model_lines(ctx, b, t, tg.wire(), r, g.n, pred, depth, leaves, rp1)
+
+
+# ----------------------------------------------------------------------------- objects with a previous life
+
+def _norm(x):
+    """canonical, comparable form of a query result"""
+    if isinstance(x, np.ndarray):
+        return _norm(x.tolist())
+    if isinstance(x, (list, tuple)):
+        return [_norm(y) for y in x]
+    if isinstance(x, (bool, np.bool_)):
+        return bool(x)
+    if isinstance(x, (int, np.integer)):
+        return int(x)
+    if isinstance(x, (float, np.floating)):
+        return float(x)
+    if x is None or isinstance(x, str):
+        return x
+    if hasattr(x, "adjacency_matrix"):     # a graph / tree that a query returned
+        d = [type(x).__name__, _norm(x.adjacency_matrix.toarray())]
+        if hasattr(x, "points"):
+            d.append(_norm(x.points))
+        if hasattr(x, "root_vertex"):
+            d += [int(x.root_vertex), _norm(list(x.predecessors_list))]
+        return d
+    return repr(x)
+
+
+def history_queries(g, rng, point, root=None, pair=None):
+    """[(kind, python call text, thunk)] - a mixed bag of queries of one graph (tree when root is given)"""
+    n = g.n
+    qs = [("edges", "sorted(map(tuple, g.edges.tolist()))", lambda o: sorted(tuple(ints(e)) for e in o.edges.tolist())),
+          ("n_edges", "g.n_edges", lambda o: o.n_edges),
+          ("get_adjacency_list", "[sorted(r) for r in g.get_adjacency_list()]", lambda o: [sorted(ints(r)) for r in o.get_adjacency_list()]),
+          ("isolated_vertices", "sorted(g.isolated_vertices())", lambda o: sorted(ints(o.isolated_vertices()))),
+          ("has_cycles", "g.has_cycles()", lambda o: o.has_cycles()),
+          ("is_tree", "g.is_tree()", lambda o: o.is_tree())]
+    vs = sorted({0, n - 1, rng.randrange(n)})
+    for v in vs:
+        if g.directed:
+            qs.append(("children", "sorted(g.children(%d))" % v, lambda o, v=v: sorted(ints(o.children(v)))))
+            qs.append(("parents", "sorted(g.parents(%d))" % v, lambda o, v=v: sorted(ints(o.parents(v)))))
+        else:
+            qs.append(("neighbours", "sorted(g.neighbours(%d))" % v, lambda o, v=v: sorted(ints(o.neighbours(v)))))
+        u = rng.randrange(n)
+        qs.append(("is_edge", "g.is_edge(%d, %d)" % (v, u), lambda o, v=v, u=u: o.is_edge(v, u)))
+    prs = [pair] if pair else []
+    prs += [(rng.randrange(n), rng.randrange(n)) for _ in range(2)]
+    neg = any(x < 0 for x in g.w.values())
+    sp_ok = not neg or (g.directed and not ref_cycle(g))
+    algs = ["BF", "J"] if neg else [rng.choice(["auto", "D", "BF", "J", "FW"]), rng.choice(["D", "BF"])]
+    for (a, c) in prs:
+        for m in ("bfs", "dfs"):
+            qs.append(("find_path", "g.find_path(%d, %d, method=%r)" % (a, c, m), lambda o, a=a, c=c, m=m: ints(o.find_path(a, c, method=m))))
+        if n <= 7:
+            qs.append(("find_all_paths", "sorted(g.find_all_paths(%d, %d))" % (a, c),
+                       lambda o, a=a, c=c: sorted(tuple(ints(p_)) for p_ in o.find_all_paths(a, c))))
+            qs.append(("n_paths", "g.n_paths(%d, %d)" % (a, c), lambda o, a=a, c=c: o.n_paths(a, c)))
+        if sp_ok:
+            for alg in algs[:1] if (a, c) != pair else algs:
+                for unw in (False, True):
+                    qs.append(("find_shortest_path", "g.find_shortest_path(%d, %d, algorithm=%r, unweighted=%r)" % (a, c, alg, unw),
+                               lambda o, a=a, c=c, alg=alg, unw=unw: o.find_shortest_path(a, c, algorithm=alg, unweighted=unw)))
+    if sp_ok:
+        for unw in (False, True):
+            qs.append(("find_all_shortest_paths", "g.find_all_shortest_paths(algorithm=%r, unweighted=%r)" % (algs[0], unw),
+                       lambda o, unw=unw: o.find_all_shortest_paths(algorithm=algs[0], unweighted=unw)))
+    if point:
+        for _ in range(2):
+            m = [int(rng.random() < 0.7) for _ in range(n)]
+            if root is not None:
+                m[root] = 1
+            qs.append(("from_mask", "g.from_mask(np.array(%r, dtype=bool))" % [bool(x) for x in m],
+                       lambda o, m=m: o.from_mask(np.array(m, dtype=bool))))
+    if not g.directed:
+        for r in sorted({rng.randrange(n), rng.randrange(n)}):
+            qs.append(("minimum_spanning_tree", "g.minimum_spanning_tree(%d)" % r, lambda o, r=r: o.minimum_spanning_tree(r)))
+    if root is not None:
+        qs += [("predecessors_list", "g.predecessors_list", lambda o: list(o.predecessors_list)),
+               ("leaves", "g.leaves", lambda o: ints(o.leaves)), ("n_leaves", "g.n_leaves", lambda o: o.n_leaves),
+               ("maximum_depth", "g.maximum_depth", lambda o: o.maximum_depth)]
+        for v in vs:
+            qs.append(("depth_of_vertex", "g.depth_of_vertex(%d)" % v, lambda o, v=v: o.depth_of_vertex(v)))
+            qs.append(("parent", "g.parent(%d)" % v, lambda o, v=v: o.parent(v)))
+            qs.append(("is_leaf", "g.is_leaf(%d)" % v, lambda o, v=v: o.is_leaf(v)))
+        k = rng.randrange(0, 4)
+        qs.append(("vertices_at_depth", "g.vertices_at_depth(%d)" % k, lambda o, k=k: ints(o.vertices_at_depth(k))))
+    return qs
+
+
+def check_history(ctx, b, rng, g, variant, point, root=None, pair=None):
+    """results must not depend on what the object was asked before: the same bag of queries is run on a fresh
+    object in one order, on a second fresh object in the reverse order, again on the first object in a third order
+    and on a copy() of the (by then well used) first object; every answer must be the one given first, and the
+    receiver (adjacency values, points, tree bookkeeping) must be what it was after every single call."""
+    from menpo import shape as ms
+    site = "C14/history"
+
+    def make():
+        if root is None:
+            return build(g, variant, point)
+        a = matrix_for(g, variant)
+        return ms.PointTree(points_for(g.n), a, root) if point else ms.Tree(a, root)
+    cname = ("PointTree" if point else "Tree") if root is not None else graph_class(g, point).__name__
+    rp0 = g.rp(variant=variant, point=point, check="history")
+    if root is not None:
+        rp0["root"] = root
+        rp0["construct"] = rp0["construct"].rsplit("g = ", 1)[0] + "g = %s(%sA, %d)" % (cname, "P, " if point else "", root)
+    if pair:
+        rp0["pair"] = list(pair)
+    ctx.case(("history", g.key(), variant, point, root), nontrivial=bool(g.w),
+             sample={"graph": g.wire(), "op": "queries in different orders / after copy()", "class": cname})
+    ctx.count("history:%s:%s" % (cname, "negative-weights" if any(x < 0 for x in g.w.values()) else "weighted"
+                                 if any(x != 1 for x in g.w.values()) else "unit"))
+    st, A = guarded(make)
+    st2, B = guarded(make)
+    if st != "ok" or st2 != "ok":
+        ctx.fail("C14/construct", "raises:" + str(A if st != "ok" else B), "constructing the graph raised", rp0)
+        return None
+    qs = history_queries(g, rng, point, root, pair)
+    base = snap(A)
+    first, done = {}, []
+
+    def ask(o, i, phase):
+        kind, text, f = qs[i]
+        st_, val = guarded(f, o)
+        done.append(text)
+        rp = dict(rp0, phase=phase, calls=list(done[-40:]), call=text)
+        if st_ == "exc":
+            ctx.fail(site, "raises:" + str(val), "%s raised %s (%s)" % (text, val, phase), rp)
+        return (st_, _norm(val) if st_ == "ok" else val), rp
+    order = list(range(len(qs)))
+    rng.shuffle(order)
+    for i in order:                                   # 1. a fresh object, one order
+        first[i], rp = ask(A, i, "first object")
+        ctx.check(snap(A) == base, "C14/receiver-unchanged", "after:" + qs[i][0], "%s changed the graph it was asked on" % qs[i][1], rp)
+    del done[:]
+    for i in reversed(order):                         # 2. a second fresh object, the reverse order
+        got, rp = ask(B, i, "second object, reverse order")
+        ctx.check(got == first[i], site, "order-dependent:" + qs[i][0],
+                  "%s = %r on an object asked in one order, %r on an identical object asked in the reverse order"
+                  % (qs[i][1], first[i][1], got[1]), rp)
+    ctx.check(snap(B) == base, "C14/receiver-unchanged", "after:queries", "a run of queries changed the graph", rp0)
+    del done[:]
+    order3 = list(order)
+    rng.shuffle(order3)
+    for i in order3:                                  # 3. the first object again, a third order
+        got, rp = ask(A, i, "first object again")
+        ctx.check(got == first[i], site, "repeat-differs:" + qs[i][0],
+                  "%s = %r the first time, %r when asked again after other queries" % (qs[i][1], first[i][1], got[1]), rp)
+    ctx.check(snap(A) == base, "C14/receiver-unchanged", "after:queries", "a run of queries changed the graph", rp0)
+    if hasattr(A, "copy"):                            # 4. a copy of the used object (Point variants are Copyable)
+        stc, C = guarded(A.copy)
+        if stc != "ok":
+            ctx.fail(site, "raises:" + str(C), "copy() raised %s" % C, rp0)
+        else:
+            ctx.count("history:copy")
+            ctx.check(type(C) is type(A) and snap(C) == base and C.adjacency_matrix is not A.adjacency_matrix, site, "copy",
+                      "copy() is not an independent equal graph", rp0)
+            del done[:]
+            done.append("g = g.copy()")
+            for i in order3[::2] + order[1::2][:len(qs) // 2]:
+                got, rp = ask(C, i, "copy of the used object")
+                ctx.check(got == first[i], site, "copy-differs:" + qs[i][0],
+                          "%s = %r on the object, %r on its copy()" % (qs[i][1], first[i][1], got[1]), rp)
+            ctx.check(snap(A) == base and snap(C) == base, "C14/receiver-unchanged", "after:copy-queries",
+                      "queries on a copy changed the copy or the original", rp0)
+    return A
 
 
 def check_predefined(ctx, rng):
@@ -885,7 +1427,16 @@ def loop_domain():
                 yield G.directed_(n, es)
 
 
-def random_graph(rng, nmax=40, weighted=False, kind=None):
+def signed(rng, ws, signs):
+    """signs: None/'+' positive | '-' all negative | '+-' mixed"""
+    if not ws or signs in (None, "+"):
+        return ws
+    if signs == "-":
+        return [-x for x in ws]
+    return [x * rng.choice([-1, -1, 1]) for x in ws]
+
+
+def random_graph(rng, nmax=40, weighted=False, kind=None, signs=None):
     kind = kind or rng.choice("UD")
     n = rng.randint(2, nmax) if rng.random() < 0.8 else rng.randint(1, 6)
     style = rng.choice(["sparse", "sparse", "forest", "dense", "cyclic"])
@@ -905,8 +1456,40 @@ def random_graph(rng, nmax=40, weighted=False, kind=None):
     if rng.random() < 0.08:
         v = rng.randrange(n)
         es.append((v, v))  # a loop
-    ws = [rng.randint(1, 9) for _ in es] if weighted else None
+    ws = signed(rng, [rng.randint(1, 9) for _ in es], signs) if weighted else None
     return G.undirected(n, es, ws) if kind == "U" else G.directed_(n, es, ws)
+
+
+def random_dag(rng, nmax=16, signs="+-"):
+    """a directed acyclic graph (edges go forward in a hidden order) with non-zero integer weights of any sign"""
+    n = rng.randint(2, nmax)
+    perm = list(range(n))
+    rng.shuffle(perm)
+    p = rng.choice([0.2, 0.35, 0.6])
+    es = [(perm[i], perm[j]) for i in range(n) for j in range(i + 1, n) if rng.random() < p]
+    if not es:
+        es = [(perm[0], perm[1])]
+    return G.directed_(n, es, signed(rng, [rng.randint(1, 9) for _ in es], signs))
+
+
+def detour_graph(rng, kind=None, nmax=9):
+    """a positively weighted graph in which, for the returned pair (s, t), the lightest route (two light edges
+    through m) is not the route with the fewest edges (one heavy direct edge)"""
+    kind = kind or rng.choice("UD")
+    n = rng.randint(3, nmax)
+    s_, m_, t_ = rng.sample(range(n), 3)
+    w = {}
+    for e in (pairs_u(n) if kind == "U" else pairs_d(n)):
+        if rng.random() < 1.5 / n:
+            w[e] = rng.randint(3, 9)
+    for e in ((s_, t_), (t_, s_), (s_, m_), (m_, s_), (m_, t_), (t_, m_)):
+        w.pop(e, None)
+    w[(s_, t_)] = 9
+    w[(s_, m_)] = 1
+    w[(m_, t_)] = 1
+    if kind == "U":
+        return G.undirected(n, sorted(w), [w[k] for k in sorted(w)]), s_, t_
+    return G("D", n, w), s_, t_
 
 
 def random_tree(rng, nmax=40, weighted=False):
@@ -921,12 +1504,10 @@ def random_tree(rng, nmax=40, weighted=False):
     return G.directed_(n, es, ws), perm[0]
 
 
-def random_connected_weighted(rng, nmax=40):
+def random_connected_weighted(rng, nmax=40, signs=None):
     n = rng.randint(2, nmax)
     perm = list(range(n))
     rng.shuffle(perm)
-    es = set((min(perm[rng.randrange(i)], perm[i]), max(perm[rng.randrange(i)], perm[i])) for i in range(1, n))
-    # the line above may join perm[i] to two different earlier vertices' labels; make sure it is connected
     es = set()
     for i in range(1, n):
         a, c = perm[rng.randrange(i)], perm[i]
@@ -935,7 +1516,11 @@ def random_connected_weighted(rng, nmax=40):
         if rng.random() < 2.0 / n:
             es.add(e)
     es = sorted(es)
-    return G.undirected(n, es, [rng.randint(1, 12) for _ in es])
+    if signs in (None, "+") and rng.random() < 0.5:
+        ws = list(range(1, len(es) + 1))      # pairwise different weights: the minimum spanning tree is unique
+        rng.shuffle(ws)
+        return G.undirected(n, es, ws)
+    return G.undirected(n, es, signed(rng, [rng.randint(1, 12) for _ in es], signs))
 
 
 def some_masks(rng, n, k):
@@ -976,20 +1561,23 @@ def exhaustive(ctx, b, rng, deadline=None):
     for kind, n, code, g in small_domain():
         if deadline is not None and (time.time() > deadline or ctx.failures):
             return
-        variant = ("edges", "dense", "csr")[(code + n) % 3]
+        # construction route: edge list | dense | csr, the matrices in every dtype in turn (unit weights fit them all)
+        dt = ":" + DTYPES[(code // 3 + n) % len(DTYPES)]
+        variant = ("edges", "dense" + dt, "csr" + dt)[(code + n) % 3]
         obj = safely(ctx, check_basic, b, g, variant, bool((code + n) % 2 == 0), rng, full=not quick)
         if obj is None:
             continue
         if not quick and code % 4 == 0:   # the other class variant / construction route
-            safely(ctx, check_basic, b, g, ("dense", "csr", "edges")[(code + n) % 3], bool((code + n) % 2 == 1), rng)
-        pobj = obj if hasattr(obj, "points") else safely(ctx, build_checked, g, "csr", True)
+            safely(ctx, check_basic, b, g, ("dense" + dt, "csr" + dt, "edges")[(code + n) % 3], bool((code + n) % 2 == 1), rng)
+        pobj = obj if hasattr(obj, "points") else safely(ctx, build_checked, g, "csr" + dt, True)
         if pobj is None:
             continue
         masks = some_masks(rng, n, None)
         if quick and n > 2:
             masks = rng.sample(masks, 2)
-        for m in masks:
-            safely(ctx, check_mask, b, g, pobj, m)
+        for k, m in enumerate(masks):
+            # deep: the masked graph answers the whole battery and is masked again (quick: one mask of every 16th graph)
+            safely(ctx, check_mask, b, g, pobj, m, rng, deep=(k == 0 and code % 16 == 1) if quick else (k + code) % 16 == 0)
         prs = [(s, t) for s in range(n) for t in range(n)]
         if quick:
             prs = [rng.choice(prs)] + ([(rng.randrange(n),) * 2] if code % 8 == 0 else [])
@@ -999,12 +1587,13 @@ def exhaustive(ctx, b, rng, deadline=None):
         if kind == "D":
             roots = range(n) if (not quick or len(g.w) == n - 1) else ([rng.randrange(n)] if code % 4 == 0 else [])
             for r in roots:
-                t = safely(ctx, check_tree_ctor, b, g, r, True, "edges" if (code + r) % 2 else "matrix")
+                t = safely(ctx, check_tree_ctor, b, g, r, True, "edges" if (code + r) % 2 else "matrix" + dt,
+                           rng if code % 2 else None)
                 if t is not None and ref_arborescence(g, r):
-                    for m in some_masks(rng, n, None):
-                        safely(ctx, check_tree_mask, b, g, r, t, m)
+                    for k, m in enumerate(some_masks(rng, n, None)):
+                        safely(ctx, check_tree_mask, b, g, r, t, m, rng, deep=(k + code + r) % 4 == 0)
         elif g.w and (not quick or code % 2 == 0):
-            safely(ctx, check_mst, b, g, obj, rng.randrange(n), hasattr(obj, "points"))
+            safely(ctx, check_mst, b, g, obj, rng.randrange(n), hasattr(obj, "points"), deep=code % (8 if quick else 2) == 0)
 
 
 def with_loops(ctx, b, rng):
@@ -1012,35 +1601,76 @@ def with_loops(ctx, b, rng):
         if ctx.quick() and g.n == 3 and g.directed and k % 3:
             continue
         ctx.count("loops-domain")
-        safely(ctx, check_basic, b, g, ("dense", "csr")[k % 2], bool(k % 2), rng, full=not ctx.quick())
+        safely(ctx, check_basic, b, g, ("dense", "csr")[k % 2] + ":" + DTYPES[(k // 2) % len(DTYPES)], bool(k % 2), rng,
+               full=not ctx.quick())
+
+
+def edge_lists_with_isolated_ends(ctx, b, rng):
+    """in every run: edge lists that never mention vertex 0 nor vertex n-1 (both must come out isolated, the number
+    of vertices comes from the argument / the points), with repeated edges, both orientations and a self-loop;
+    abstract and Point variants; Tree / PointTree.init_from_edges must refuse such a list (a tree has no isolated
+    vertices) and accept the same tree once the end vertices are attached"""
+    for kind in "UD":
+        for point in (False, True):
+            n = rng.randint(4, 10)
+            inner = list(range(1, n - 1))
+            es = [(rng.choice(inner), rng.choice(inner)) for _ in range(rng.randint(2, 2 * n))]
+            es += [(c, a) for a, c in es[:2]] + [es[0], es[-1]] + [(inner[0], inner[0])]
+            rng.shuffle(es)
+            safely(ctx, check_from_edges, b, rng, kind, n, es, point)
+    for point in (False, True):
+        n = rng.randint(4, 9)
+        inner = list(range(1, n - 1))
+        rng.shuffle(inner)
+        es = [(inner[rng.randrange(i)], inner[i]) for i in range(1, len(inner))]
+        ctx.count("tree-ctor:isolated-0-and-last:" + ("PointTree" if point else "Tree"))
+        safely(ctx, check_tree_ctor, b, G.directed_(n, es), inner[0], point, "edges", rng)      # must be refused
+        es2 = es + [(rng.choice(inner), 0), (rng.choice(inner), n - 1)]
+        safely(ctx, check_tree_ctor, b, G.directed_(n, es2), inner[0], point, "edges", rng)     # must be accepted
+
+
+def refused_representations(ctx, b, rng):
+    """csc / coo / lil / csr_array adjacency arguments: the constructor documents ndarray or csr_matrix only and
+    refuses anything else with ValueError (counted); any other outcome is judged like an ordinary construction"""
+    for k, rep in enumerate(REFUSED_REPS):
+        g = random_graph(rng, nmax=8, weighted=bool(k % 2))
+        safely(ctx, check_basic, b, g, rep + ":" + rng.choice([d for d in DTYPES if dtype_ok(g, d)]), bool(rng.random() < 0.5), rng)
 
 
 def randoms(ctx, b, rng, count):
     for k in range(count):
-        what = k % 5
-        if what == 0:      # queries + masks on a random graph
-            g = random_graph(rng, weighted=rng.random() < 0.5)
+        random_case(ctx, b, rng, k)
+
+
+def random_case(ctx, b, rng, k):
+    """the k-th random case: eight kinds in turn"""
+    if True:
+        what = k % 8
+        if what == 0:      # queries + masks on a random graph, any matrix representation / dtype, weights of any sign
+            g = random_graph(rng, weighted=rng.random() < 0.6, signs=rng.choice(["+", "+-", "-"]))
             point = rng.random() < 0.6
-            obj = safely(ctx, check_basic, b, g, rng.choice(["edges", "dense", "csr"]) if all(x == 1 for x in g.w.values()) and
-                              not any(i == j for i, j in g.w) else rng.choice(["dense", "csr"]), point, rng)
+            obj = safely(ctx, check_basic, b, g, random_variant(rng, g), point, rng)
             if obj is None:
-                continue
-            pobj = obj if point else safely(ctx, build_checked, g, "csr", True)
+                return
+            pobj = obj if point else safely(ctx, build_checked, g, random_variant(rng, g, edges_ok=False), True)
             if pobj is None:
-                continue
-            for m in some_masks(rng, g.n, 4):
-                safely(ctx, check_mask, b, g, pobj, m)
-        elif what == 1:    # edge lists with duplicates / both orientations / loops
+                return
+            for j, m in enumerate(some_masks(rng, g.n, 4)):
+                safely(ctx, check_mask, b, g, pobj, m, rng, deep=j >= 2)
+            s, t = rng.randrange(g.n), rng.randrange(g.n)    # paths follow the edges whatever the sign of the weights
+            safely(ctx, check_paths, b, g, obj, s, t, all_paths=g.n <= 7)
+        elif what == 1:    # edge lists with duplicates / both orientations / loops, abstract and Point variants
             kind = rng.choice("UD")
             n = rng.randint(1, 12)
             es = [(rng.randrange(n), rng.randrange(n)) for _ in range(rng.randint(0, 2 * n))]
             es += [rng.choice(es) for _ in range(rng.randint(0, 3))] if es else []
-            safely(ctx, check_from_edges, b, rng, kind, n, es)
-        elif what == 2:    # paths and shortest paths on weighted graphs
+            es += [(c, a) for a, c in es[:rng.randint(0, 2)]]
+            safely(ctx, check_from_edges, b, rng, kind, n, es, point=k % 16 == 1)
+        elif what == 2:    # paths and shortest paths on weighted graphs; the same object answers all of them
             g = random_graph(rng, nmax=rng.choice([7, 7, 16, 28, 40]), weighted=True)
-            obj = safely(ctx, build_checked, g, rng.choice(["dense", "csr"]), rng.random() < 0.5)
+            obj = safely(ctx, build_checked, g, random_variant(rng, g, edges_ok=False), rng.random() < 0.5)
             if obj is None:
-                continue
+                return
             for _ in range(3):
                 s, t = rng.randrange(g.n), rng.randrange(g.n)
                 safely(ctx, check_paths, b, g, obj, s, t, all_paths=g.n <= 7)
@@ -1049,7 +1679,7 @@ def randoms(ctx, b, rng, count):
             v = rng.randrange(g.n)
             safely(ctx, check_shortest, b, g, obj, v, v)
         elif what == 3:    # trees: constructor, relations, masks; and non-trees
-            g, r = random_tree(rng, weighted=rng.random() < 0.4)
+            g, r = random_tree(rng, weighted=rng.random() < 0.5)
             if rng.random() < 0.25:   # spoil it
                 how = rng.choice(["extra", "flip", "root", "drop"])
                 w = dict(g.w)
@@ -1063,18 +1693,84 @@ def randoms(ctx, b, rng, count):
                 else:
                     r = rng.randrange(g.n)
                 g = G("D", g.n, w)
-            t = safely(ctx, check_tree_ctor, b, g, r, True, rng.choice(["edges", "matrix"]) if all(x == 1 for x in g.w.values()) else "matrix")
+            via = "matrix:" + rng.choice([d for d in DTYPES if dtype_ok(g, d)])
+            if all(x == 1 for x in g.w.values()) and rng.random() < 0.5:
+                via = "edges"
+                if rng.random() < 0.4:    # one edge is listed twice
+                    w = dict(g.w)
+                    w[rng.choice(sorted(w))] = 2
+                    g = G("D", g.n, w)
+            t = safely(ctx, check_tree_ctor, b, g, r, True, via, rng)
             if t is not None and ref_arborescence(g, r):
-                for m in some_masks(rng, g.n, 4):
-                    safely(ctx, check_tree_mask, b, g, r, t, m)
-            safely(ctx, check_tree_ctor, b, g, r, False, "matrix")
-        else:              # minimum spanning trees
-            g = random_connected_weighted(rng) if rng.random() < 0.85 else random_graph(rng, nmax=12, weighted=True, kind="U")
+                for j, m in enumerate(some_masks(rng, g.n, 4)):
+                    safely(ctx, check_tree_mask, b, g, r, t, m, rng, deep=j != 1)
+            safely(ctx, check_tree_ctor, b, g, r, False, via, rng)
+        elif what == 4:    # minimum spanning trees: weights of any sign, several roots of the same graph object
+            signs = rng.choice(["+", "+", "-", "+-", "+-"])
+            g = random_connected_weighted(rng, signs=signs) if rng.random() < 0.85 else \
+                random_graph(rng, nmax=12, weighted=True, kind="U", signs=signs)
             point = rng.random() < 0.5
-            obj = safely(ctx, build_checked, g, rng.choice(["dense", "csr"]), point)
+            obj = safely(ctx, build_checked, g, random_variant(rng, g, edges_ok=False), point)
             if obj is None:
-                continue
-            safely(ctx, check_mst, b, g, obj, rng.randrange(g.n), point)
+                return
+            for r in sorted(set([0, g.n - 1, rng.randrange(g.n)]))[:rng.choice([2, 3])]:
+                safely(ctx, check_mst, b, g, obj, r, point)
+        elif what == 5:    # negative and mixed-sign weights on a directed acyclic graph: every query, Bellman-Ford / Johnson
+            g = random_dag(rng, nmax=rng.choice([6, 7, 12, 16]), signs=rng.choice(["+-", "+-", "-"]))
+            point = rng.random() < 0.5
+            obj = safely(ctx, check_basic, b, g, random_variant(rng, g, edges_ok=False), point, rng)
+            if obj is None:
+                return
+            for _ in range(3):
+                s, t = rng.randrange(g.n), rng.randrange(g.n)
+                safely(ctx, check_paths, b, g, obj, s, t, all_paths=g.n <= 7)
+                safely(ctx, check_shortest, b, g, obj, s, t, rng.choice(["BF", "J"]), rng.random() < 0.25)
+            reach = [(s, t) for s in range(g.n) for t in g.out[s]]
+            s, t = rng.choice(reach)
+            for alg in ("BF", "J"):
+                safely(ctx, check_shortest, b, g, obj, s, t, alg, False)
+        elif what == 6:    # objects with a previous life: query orders, repetition, copy()
+            sub = (k // 8) % 4
+            point = (k // 32) % 2 == 0 or sub == 3
+            pair, root = None, None
+            if sub == 0:
+                g, s, t = detour_graph(rng)
+                pair = (s, t)
+            elif sub == 1:
+                g = random_dag(rng, nmax=9, signs="+-")
+            elif sub == 2:
+                g, root = random_tree(rng, nmax=12, weighted=True)
+            else:
+                g = random_graph(rng, nmax=10, weighted=rng.random() < 0.7)
+            variant = random_variant(rng, g, edges_ok=False)
+            obj = safely(ctx, check_history, b, rng, g, variant, point, root, pair)
+            if obj is not None and pair is not None:
+                # after all that, on the very same object: the lightest and the fewest-edges route of the planted pair
+                alg = rng.choice(["auto", "D", "BF", "J", "FW"])
+                for unw in rng.choice([(False, True), (True, False)]) + (rng.random() < 0.5,):
+                    safely(ctx, check_shortest, b, g, obj, pair[0], pair[1], alg, unw)
+        else:              # explicitly stored zeros in a csr matrix are non-edges for every edge query
+            g = random_graph(rng, nmax=rng.choice([6, 12, 20]), weighted=rng.random() < 0.5, signs=rng.choice(["+", "+-"]))
+            point = rng.random() < 0.5
+            dts = [d for d in DTYPES if dtype_ok(g, d)]
+            obj = safely(ctx, check_basic, b, g, "csrz:" + rng.choice(dts), point, rng)
+            if obj is not None:
+                strict = STORED_ZEROS_STRICT or zeros_dropped(obj)
+                ctx.count("explicit-zeros:" + ("none-possible" if not zero_positions(g) else
+                                               "dropped-by-constructor" if zeros_dropped(obj) else "kept-by-constructor"))
+                if point:
+                    # (stored zeros survive the row / column selection of from_mask)
+                    safely(ctx, check_mask, b, g, obj, some_masks(rng, g.n, 4)[-1], rng, deep=True, trees=strict)
+                if strict:
+                    ctx.count("explicit-zeros:csgraph-queries-checked")
+                    for _ in range(2):
+                        s, t = rng.randrange(g.n), rng.randrange(g.n)
+                        safely(ctx, check_paths, b, g, obj, s, t, all_paths=g.n <= 7)
+                        safely(ctx, check_shortest, b, g, obj, s, t, rng.choice(["auto", "D", "BF", "J", "FW"]), rng.random() < 0.3)
+                    if not g.directed and g.w:
+                        safely(ctx, check_mst, b, g, obj, rng.randrange(g.n), point)
+                else:
+                    ctx.count("explicit-zeros:csgraph-queries-left-out")
 
 
 def search(ctx):
@@ -1142,7 +1838,11 @@ def run(ctx):
     ctx.trusted += ["scipy.sparse.csgraph results (shortest_path, breadth/depth_first_order, breadth_first_tree, "
                     "connected_components, minimum_spanning_tree) enter the model as parameters; their contract is "
                     "re-checked against the model's Bellman-Ford / Kruskal on every case",
-                    "decide +kernel tables: 1099 undirected graphs on <=5 vertices, 4165 loop-free digraphs on <=4 vertices"]
+                    "decide +kernel tables: 1099 undirected graphs on <=5 vertices, 4165 loop-free digraphs on <=4 vertices "
+                    "(now corollaries of the unbounded theorems; kept as an independent cross-check of the definitions)",
+                    "the tie between the fuelled transcription `dfs` of _has_cycles.dfs and the recursion of the code is the "
+                    "correspondence (has_cycles of every case is diffed); that the fuel 2n+2 never runs out is a theorem "
+                    "(Dfs.dfs_exec)"]
     rng = ctx.rng
     b = Batch()
     import glob
@@ -1151,9 +1851,15 @@ def run(ctx):
         replay_case(ctx, b, json.load(open(path)).get("replay", {}))   # minimised past failures first
         ctx.count("corpus-replay")
     check_predefined(ctx, rng)
+    edge_lists_with_isolated_ends(ctx, b, rng)
+    refused_representations(ctx, b, rng)
     exhaustive(ctx, b, rng)
     with_loops(ctx, b, rng)
-    randoms(ctx, b, rng, ctx.n(200, 4000))
+    randoms(ctx, b, rng, ctx.n(320, 4000))
+    if getattr(b, "skipped_negative", 0):
+        ctx.count("oracle-only(negative weights in an operation that adds or orders weights)", b.skipped_negative)
+    if getattr(b, "abs_weights", 0):
+        ctx.count("model-compared-on-|w|(negative weights, structural operation)", b.abs_weights)
     settle(ctx, b)
     ctx.notes["exhaustive_small_domains"] = "all 1099 undirected graphs on <=5 vertices and all 4165 loop-free digraphs " \
         "on <=4 vertices run on the real classes (%s masks / start-end pairs per graph, every root)" % (
@@ -1164,29 +1870,45 @@ def run(ctx):
 def replay_case(ctx, b, rp):
     rng = ctx.rng
     if "entries" not in rp:
-        safely(ctx, check_from_edges, b, rng, rp["kind"], rp["n"], [tuple(e) for e in rp["edges"]])
+        safely(ctx, check_from_edges, b, rng, rp["kind"], rp["n"], [tuple(e) for e in rp["edges"]], bool(rp.get("point", False)))
         return
     g = G.from_rp(rp)
     point = bool(rp.get("point", False))
-    obj = safely(ctx, check_basic, b, g, rp.get("variant", "dense") if rp.get("variant") != "edges" else "dense", point)
+    variant = rp.get("variant") or "dense"
+    if variant == "edges":
+        variant = "dense"
+    if rp.get("check") == "history":
+        for _ in range(4):    # the orders are drawn again: a few of them
+            safely(ctx, check_history, b, rng, g, variant, point, rp.get("root"), tuple(rp["pair"]) if rp.get("pair") else None)
+        return
+    if "previous_life" in rp:   # a masked tree that was masked again: replay the whole chain
+        pl = rp["previous_life"]
+        g0 = G.from_rp(pl)
+        t = safely(ctx, check_tree_ctor, b, g0, pl["root"], True, "matrix")
+        if t is not None:
+            safely(ctx, check_tree_mask, b, g0, pl["root"], t, tuple(pl["mask"]), rng, deep=True)
+    if g.directed and "root" in rp and "mask" not in rp and "start" not in rp:
+        safely(ctx, check_tree_ctor, b, g, rp["root"], point, "matrix" + (":" + variant.partition(":")[2] if ":" in variant else ""))
+        return
+    obj = safely(ctx, check_basic, b, g, variant, point)
     if obj is None:
         return
     if "mask" in rp and "root" in rp:
         t = safely(ctx, check_tree_ctor, b, g, rp["root"], True, "matrix")
         if t is not None:
-            safely(ctx, check_tree_mask, b, g, rp["root"], t, tuple(rp["mask"]))
+            safely(ctx, check_tree_mask, b, g, rp["root"], t, tuple(rp["mask"]), rng, deep=True)
     elif "mask" in rp:
-        pobj = safely(ctx, build_checked, g, "csr", True)
+        pobj = obj if point else safely(ctx, build_checked, g, variant, True)
         if pobj is not None:
-            safely(ctx, check_mask, b, g, pobj, tuple(rp["mask"]))
+            for _ in range(3 if "mask2" in rp else 1):
+                safely(ctx, check_mask, b, g, pobj, tuple(rp["mask"]), rng, deep=True, trees=not variant.startswith("csrz"))
     elif "start" in rp:
         safely(ctx, check_paths, b, g, obj, rp["start"], rp["end"], all_paths=g.n <= 8)
+        if "algorithm" in rp:   # the other metric first: an answer must not depend on what was asked before
+            safely(ctx, check_shortest, b, g, obj, rp["start"], rp["end"], rp["algorithm"], not rp.get("unweighted", False))
         safely(ctx, check_shortest, b, g, obj, rp["start"], rp["end"], rp.get("algorithm", "auto"), rp.get("unweighted", False))
     elif "root" in rp:
-        if g.directed:
-            safely(ctx, check_tree_ctor, b, g, rp["root"], point, "matrix")
-        else:
-            safely(ctx, check_mst, b, g, obj, rp["root"], point)
+        safely(ctx, check_mst, b, g, obj, rp["root"], point)
 
 
 def replay(ctx, path):
